@@ -143,7 +143,8 @@ package service
 // TCP relay (property C13): one accepted connection, sequentially. Routing is asked with the requested
 // target, the user and the client's address; the chosen client is dialled with exactly the requested target and
 // the initial payload; a failure reply (Abort) is only sent while success has not been signalled (Proceed), and
-// Proceed is called at most once; both directions are copied between the client and the dialled connection;
+// Proceed is called at most once; success is only signalled before dialling (to wait for an initial payload)
+// when the chosen client can carry one and waiting is enabled; both directions are copied between the client and the dialled connection;
 // statistics get the user, the downlink count and the uplink count in that order.
 // ---------------------------------------------------------------------------
 
@@ -157,6 +158,7 @@ package service
 //@   callsite DialStream: sliceoff(arg2) == sliceoff(req.Payload)
 //@   callsite DialStream: len(arg2) == len(req.Payload)
 //@   callsite Abort: isnil(clientConn)
+//@   callsite Read: len(arg0) == lnc.initialPayloadWaitBufferSize && clientInfo.NativeInitialPayload && lnc.waitForInitialPayload
 //@   callsite Proceed: isnil(clientConn)
 //@   callsite CollectTCPSession: arg0 == req.Username && arg1 == uint64(nr2l) && arg2 == uint64(nl2r)
 //@   callsite BidirectionalCopy: arg0 == clientConn
